@@ -52,6 +52,7 @@ Definition st0 : st := {| model := 1; nt := None; oldres := None |}.
 Inductive terminal := TNone | TNplus | TCminus.
 Record out := { o_model : Z; o_alt : ascii; o_atom : atomrec; o_term : terminal }.
 
+Definition is_ter (tag : string) : bool := String.eqb (strip tag) "TER".   (* 'TER   ', or an unpadded 'TER' + newline *)
 Definition is_atom_tag (tag : string) : bool := String.eqb tag "ATOM  " || String.eqb tag "HETATM".
 Definition conv_alt (c : ascii) : ascii :=
   let n := code c in
@@ -65,12 +66,12 @@ Definition step (o : opts) (s : st) (line : string) : result (st * list out) :=
   do s <- (if String.eqb tag "MODEL "
            then do m <- py_int (slice_from 6 line); Ok {| model := m; nt := None; oldres := oldres s |}
            else Ok s);
-  let s := if String.eqb tag "TER   " then {| model := model s; nt := None; oldres := oldres s |} else s in
+  let s := if is_ter tag then {| model := model s; nt := None; oldres := oldres s |} else s in
   if negb (is_atom_tag tag) then Ok (s, [])
   else
     do alt <- idx 16 line;
     let name := slice 12 16 line in
-    let resnum := slice 22 26 line in
+    let resnum := slice 21 27 line in   (* chain, number, insertion code *)
     if mem_str (slice 17 20 line) (ignore_residues o) then Ok (s, [])
     else
       do selected <- (match chains o with
